@@ -107,9 +107,9 @@ Section Seg.
         assert (Hlift : forall st2 evs2 (r2 : nres I) d2,
                    seg_res r2 (rbuf st1 ++ sdata (e :: evs)) d2 (rbuf st2 ++ sdata evs2) ->
                    exists d, seg_res r2 (rbuf st ++ sdata (e :: evs)) d (rbuf st2 ++ sdata evs2)).
-        { intros st2 evs2 r2 d2 Hs. exists (d0 ++ d2). rewrite Ha, <- !app_assoc.
-          destruct r2 as [i|k| | | |]; cbn [seg_res] in *; try (rewrite Hs; reflexivity).
-          destruct Hs as [f [HR Hs]]. exists f. split; [exact HR|]. rewrite Hs. reflexivity. }
+        { intros st2 evs2 r2 d2 Hs. exists (d0 ++ d2). rewrite Ha.
+          destruct r2 as [i|k| | | |]; cbn [seg_res] in *; try (rewrite <- !app_assoc, Hs; reflexivity).
+          destruct Hs as [f [HR Hs]]. exists f. split; [exact HR|]. rewrite <- !app_assoc, Hs. reflexivity. }
         destruct e as [c| |k|].
         * (* data *)
           destruct c as [|c0 c].
